@@ -478,7 +478,7 @@ class Machine:
                 return self.call_fn(g, a)
         if nm in ("core::cmp::min", "core::cmp::max") and all(isinstance(x, int) and not isinstance(x, bool) for x in a[:2]):
             return min(a[0], a[1]) if nm.endswith("min") else max(a[0], a[1])
-        if re.search(r"ChunksExact(::)?<'\w+, T>(>)?::remainder$", nm):
+        if re.search(r"ChunksExact(Mut)?(::)?<'\w+, T>(>)?::(into_)?remainder$", nm):
             st_ = a[0]
             if isinstance(st_, tuple) and st_ and st_[0] == "lref":
                 st_ = st_[1][st_[2]]
@@ -752,10 +752,10 @@ class Machine:
             return self.seq(a[0])[2]
         if re.search(r"slice::<impl \[T\]>::is_empty$", nm):
             return self.seq(a[0])[2] == 0
-        if re.search(r"slice::<impl \[T\]>::chunks(_exact)?$", nm) and isinstance(a[1], int) and a[1] > 0:
+        if re.search(r"slice::<impl \[T\]>::chunks(_exact)?(_mut)?$", nm) and isinstance(a[1], int) and a[1] > 0:
             cont, base, n = self.seq(a[0])
-            return {"_chunks": [cont, base, base + n, a[1], nm.endswith("_exact")]}
-        if re.search(r"core::slice::Chunks(Exact)?<'a, T> as core::iter::Iterator>::next$", nm) and isinstance(a[0], tuple) and a[0][0] == "lref":
+            return {"_chunks": [cont, base, base + n, a[1], "_exact" in nm.split("::")[-1]]}
+        if re.search(r"core::slice::Chunks(Exact)?(Mut)?<'a, T> as core::iter::Iterator>::next$", nm) and isinstance(a[0], tuple) and a[0][0] == "lref":
             it = a[0][1][a[0][2]]
             st = it.get("_chunks") if isinstance(it, dict) else None
             if st is None:
